@@ -286,7 +286,9 @@ func checkEncode(s string, chunked bool) {
 		viol("encoder-differs-from-rfc-reference", fmt.Sprintf("got %q want %q", enc, want))
 	}
 	if enc != s {
-		run.Nontrivial("e:" + s)
+		// counts non-trivial evaluations (an input reached by both the product and a family is counted
+		// twice): no per-input set, which at the thorough bound is gigabytes
+		run.NontrivialN(1)
 	}
 	back, err, pan := safeDecode(enc)
 	if pan != nil {
@@ -356,13 +358,13 @@ func checkDecode(in string, chunked bool) {
 			viol("decoder-wrong-output", fmt.Sprintf("got %q want %q", out, want))
 		}
 		if strings.Contains(in, "&") {
-			run.Nontrivial("d:" + in)
+			run.NontrivialN(1)
 		}
 	case reject:
 		if err == nil {
 			viol("decoder-accepts-malformed:"+strings.ReplaceAll(why, " ", "-"), fmt.Sprintf("decoded to %q", out))
 		}
-		run.Nontrivial("d:" + in)
+		run.NontrivialN(1)
 	}
 	if chunked {
 		for _, sc := range srcChunks {
